@@ -178,16 +178,21 @@ MUTANTS += [
 REP72 = z3.Function("password cycled to 72 bytes", z3.StringSort(), z3.StringSort())
 
 
+UREP72 = z3.Function("password cycled to 72 bytes on a character boundary", z3.StringSort(), z3.StringSort())
+
+
 def _rep_stub(name):
+    fn = UREP72 if name.startswith("utf8") else REP72
+
     def call(it, args, kwargs):
         r = it.resolve(args[1])
         if r != 72:
             from pyvc.values import Unsupported
             raise Unsupported(f"{name} to {r!r} bytes")
         from pyvc.values import SStr as _S
-        return _S(REP72(it.to_z3(args[0])), "bytes")
+        return _S(fn(it.to_z3(args[0])), "bytes")
 
-    return SStub(call, name, trusted=f"{name}(s, 72): s cycled to at least 72 bytes (bcrypt reads 72)")
+    return SStub(call, name, trusted=f"{name}(s, 72): s cycled to at least 72 bytes (bcrypt reads 72)" + (", never cut inside a UTF-8 character (own contract, C02/C03)" if fn is UREP72 else ""))
 
 
 bcrypt_2_contract = Contract(
@@ -201,10 +206,14 @@ bcrypt_2_contract = Contract(
     globals={"utf8_truncate": _prefix_preserving("utf8_truncate"), "utf8_repeat_string": _rep_stub("utf8_repeat_string"), "repeat_string": _rep_stub("repeat_string")},
     raises={"PasswordSizeError": "len(secret) > 4096", "PasswordValueError": "b'\\x00' in secret"},
     ensures=[
-        ("a backend without native $2$ support gets the password cycled to 72 bytes -- for EVERY non-empty password -- under the fallback ident; a native backend gets it unchanged",
+        ("a backend without native $2$ support gets the password cycled to 72 bytes -- for EVERY non-empty password, on a character boundary exactly when the backend insists on valid UTF-8 -- under the fallback ident; a native backend gets it unchanged",
          lambda it, env: z3.And(
              z3.Implies(z3.And(it.to_zbool(it.truth(it.resolve(env.lookup("cls")).fields["_lacks_20_support"])), z3.Length(it.to_z3(env.lookup("secret"))) > 0),
-                        it.to_z3(it.static_items_req(it.resolve(env.lookup("result")))[0]) == REP72(it.to_z3(env.lookup("secret")))),
+                        # character-wise repetition only for a backend that insists on valid UTF-8 (and then only when the bytes ARE
+                        # valid UTF-8, which the code tests itself); byte-wise otherwise
+                        z3.Or(it.to_z3(it.static_items_req(it.resolve(env.lookup("result")))[0]) == REP72(it.to_z3(env.lookup("secret"))),
+                              z3.And(it.to_zbool(it.truth(it.resolve(env.lookup("cls")).fields["_require_valid_utf8_bytes"])),
+                                     it.to_z3(it.static_items_req(it.resolve(env.lookup("result")))[0]) == UREP72(it.to_z3(env.lookup("secret")))))),
              z3.Implies(z3.Not(it.to_zbool(it.truth(it.resolve(env.lookup("cls")).fields["_lacks_20_support"]))),
                         it.to_z3(it.static_items_req(it.resolve(env.lookup("result")))[0]) == it.to_z3(env.lookup("secret"))))),
         ("ident handed to the backend", "result[1] == (cls._fallback_ident if cls._lacks_20_support else '$2$')"),
@@ -214,3 +223,5 @@ bcrypt_2_contract = Contract(
 )
 CONTRACTS.append(bcrypt_2_contract)
 MUTANTS.append(("bcrypt $2$: passwords of 56..71 bytes are not cycled", B, "                if secret:\n                    if require_valid_utf8_bytes:", "                if secret and len(secret) < 56:\n                    if require_valid_utf8_bytes:", "refute", r"_norm_digest_args\[\$2\$\]"))
+
+MUTANTS.append(("bcrypt $2$: byte-wise and character-wise repetition swapped", B, "                        secret = utf8_repeat_string(secret, 72)\n                    else:\n                        secret = repeat_string(secret, 72)", "                        secret = repeat_string(secret, 72)\n                    else:\n                        secret = utf8_repeat_string(secret, 72)", "refute", r"_norm_digest_args\[\$2\$\]"))
